@@ -8,13 +8,14 @@ package main
 //   gosym list
 
 import (
-	"runtime/pprof"
 	"encoding/json"
 	"flag"
 	"fmt"
 	"os"
 	"os/exec"
 	"path/filepath"
+	"runtime"
+	"runtime/pprof"
 	"sort"
 	"strconv"
 	"strings"
@@ -101,12 +102,12 @@ func inTier(h *HarnessCfg, tier string) bool {
 }
 
 type WorkerOut struct {
-	Results   []*HarnessResult `json:"results"`
-	Stats     SolverStats      `json:"stats"`
-	LoadSecs  float64          `json:"load_secs"`
-	InitSecs  float64          `json:"init_secs"`
-	Instrs    int64            `json:"instrs"`
-	Error     string           `json:"error,omitempty"`
+	Results  []*HarnessResult `json:"results"`
+	Stats    SolverStats      `json:"stats"`
+	LoadSecs float64          `json:"load_secs"`
+	InitSecs float64          `json:"init_secs"`
+	Instrs   int64            `json:"instrs"`
+	Error    string           `json:"error,omitempty"`
 }
 
 func main() {
@@ -156,6 +157,7 @@ func cmdWorker(args []string) {
 	seed := fs.Int64("seed", 0, "")
 	deadlineS := fs.Int("deadline", 600, "seconds per harness")
 	prof := fs.String("cpuprofile", "", "")
+	procs := fs.Int("procs", 0, "GOMAXPROCS after the front end has loaded the program (0 = unchanged)")
 	fs.Parse(args)
 	if *prof != "" {
 		f, _ := os.Create(*prof)
@@ -191,6 +193,9 @@ func cmdWorker(args []string) {
 	wo := &WorkerOut{}
 	p := loadProgram(pkgs)
 	wo.LoadSecs = p.loadSecs
+	if *procs > 0 {
+		runtime.GOMAXPROCS(*procs)
+	}
 	in := newInterp(p, nil)
 	in.verbose = *verbose
 	t0 := time.Now()
@@ -215,6 +220,7 @@ func cmdWorker(args []string) {
 				res.Paths, res.PanicPaths, res.AssumeCut, res.Infeasible, res.Unsupported, len(res.Violations), len(res.KnownHits), res.Instrs, res.Wall)
 		}
 	}
+	dumpDecSites()
 	wo.Stats = in.stats
 	wo.Instrs = in.totalInstrs
 	in.solver.close()
@@ -265,9 +271,9 @@ func cmdCheck(args []string) int {
 		fatalf("%v", err)
 	}
 	defer os.RemoveAll(tmp)
-	deadline := 240
+	deadline := 420
 	if *tier == "thorough" {
-		deadline = 1500
+		deadline = 2400
 	}
 	if d := os.Getenv("VERIF_DEADLINE"); d != "" {
 		deadline, _ = strconv.Atoi(d)
@@ -288,6 +294,10 @@ func cmdCheck(args []string) int {
 				"--v", strconv.Itoa(*verbose), "--seed", strconv.FormatInt(seed, 10), "--deadline", strconv.Itoa(deadline))
 			cmd.Stderr = os.Stderr
 			cmd.Env = goEnv()
+			// the interpreter is sequential (baton passing between its goroutines) and the front end does not get
+			// faster with more threads either (measured: GOMAXPROCS=2 5.2 s wall / 10 s CPU, 16: 5.3 s wall / 34 s CPU,
+			// most of it scheduler and collector spinning), so every worker gets two threads
+			cmd.Env = append(cmd.Env, "GOMAXPROCS=2")
 			err := cmd.Run()
 			wo := &WorkerOut{}
 			if b, rerr := os.ReadFile(of); rerr == nil {
